@@ -62,6 +62,14 @@ def gen_script(rng, atomic):
     est = Fraction(0)  # rough estimate of the reading, to aim assignments around the threshold
     playing = False
     speed = Fraction(1)
+    # magnitudes: a third of the scripts live at large values (a day, a year, the epoch in seconds, 10**12), where a
+    # difference of a fraction of a second is tiny in relative terms, with a wall clock at epoch-like values
+    big = rng.choice([86400, 31536000, 1700000000, 10 ** 12]) if rng.random() < 0.35 else 0
+    small = [Fraction(-1, 2), Fraction(-1, 1000), Fraction(-1, 10 ** 6), Fraction(1, 1000)] if big else []
+    if big:
+        w = w0 = Fraction(1700000000) + w
+        script.append(('settime', Fraction(big), w, w))
+        est = Fraction(big)
     for _ in range(n):
         dw = rng.choice([0, 0, 1, 2, Fraction(1, 2), Fraction(7, 3), 10])
         a = w + dw
@@ -85,7 +93,7 @@ def gen_script(rng, atomic):
             op = 'speed'
             speed = arg
         else:
-            arg = est + rng.choice([-2, -1, Fraction(-1, 3), 0, 0, Fraction(1, 3), 1, 5])
+            arg = est + rng.choice([-2, -1, Fraction(-1, 3), 0, 0, Fraction(1, 3), 1, 5] + small + small)
             op = 'settime'
             if arg >= est:
                 est = arg
